@@ -42,6 +42,12 @@ type monitor struct {
 	used       [256]bool // every identifier it used for an originated packet
 	hasOrig    bool
 	lastOrig   byte // identifier of the latest originated packet of any kind
+
+	// idclass_test.go: Terminate-Requests and the order of all originated packets
+	hasTerm      bool
+	termID       byte   // identifier of its latest Terminate-Request
+	termAfterReq bool   // that Terminate-Request was sent after its latest Configure-Request (it is outstanding in this termination)
+	origLog      []byte // identifiers of every packet it originated, oldest first
 }
 
 // originated: codes for which the sender chooses the identifier (RFC 1661 section 5); replies echo the peer's.
@@ -132,6 +138,10 @@ func (m *monitor) onSent(p pkt, stBefore string) {
 	if originated(p.Code) {
 		m.used[p.ID] = true
 		m.hasOrig, m.lastOrig = true, p.ID
+		m.origLog = append(m.origLog, p.ID)
+		if p.Code == cTermReq {
+			m.hasTerm, m.termID, m.termAfterReq = true, p.ID, true
+		}
 		if p.Code != cConfReq {
 			m.hasNC, m.ncID, m.ncCode, m.ncAfterReq = true, p.ID, p.Code, true
 		}
@@ -141,6 +151,7 @@ func (m *monitor) onSent(p pkt, stBefore string) {
 		m.hasOur, m.ourID, m.ourData = true, p.ID, p.Data
 		m.reqIDs = append(m.reqIDs, p.ID)
 		m.ncAfterReq = false
+		m.termAfterReq = false
 		m.peerAcked = false
 		m.ourByTimer = p.ByTimer
 	case cConfAck:
@@ -192,6 +203,11 @@ type evRec struct {
 	NoReq      bool   // the automaton never sent a Configure-Request (no identifier can match)
 	NCAfterReq bool   // it originated a non-Configure-Request packet after its latest Configure-Request
 	ReqID      byte   // identifier of its latest Configure-Request
+	// peer Terminate-Request/-Ack, Code-/Protocol-Reject, Echo-Reply, Discard-Request (idclass_test.go), from the monitor just before delivery:
+	PBase     string // RTA RTR CRJcrit CRJother PRJlcp PRJother EREP DISCARD
+	PClass    string // cur term nc old new: what the packet's identifier is to the automaton
+	IDLast    bool   // the identifier is the one of the latest packet the automaton originated
+	TermMatch bool   // the identifier is that of a Terminate-Request sent after the latest Configure-Request (outstanding)
 }
 
 func (r *evRec) String() string {
@@ -327,6 +343,11 @@ func (c *caseCtx) step(e ev, judge bool) *evRec {
 			rec.NCAfterReq = c.mon.hasNC && c.mon.ncAfterReq
 			rec.ReqID = c.mon.ourID
 		}
+		if b := peerBase(rec.Inner, p[0]); b != "" {
+			rec.PBase, rec.PClass = b, c.mon.classifyID(p[1])
+			rec.IDLast = c.mon.hasOrig && p[1] == c.mon.lastOrig
+			rec.TermMatch = c.mon.hasTerm && c.mon.termAfterReq && p[1] == c.mon.termID
+		}
 		c.mon.onDeliver(p[0], p[1], p[4:])
 		if race {
 			rec.RaceHeld = false
@@ -434,9 +455,20 @@ func (c *caseCtx) judgeEvent(rec *evRec) {
 	}
 	// (b) renegotiation, terminate and lower-layer-down leave Opened
 	mustLeave := false
+	base, _ := peerKind(rec.Inner)
 	switch k := rec.Inner; {
-	case k == "Down" || k == "Close" || k == "RTR":
+	case k == "Down" || k == "Close" || base == "RTR":
 		mustLeave = true
+	case base == "RTA" && rec.From == "Opened" && rec.Err == "" && rec.Panic == "":
+		// RFC 1661 section 4.1: RTA in Opened = this-layer-down, send Configure-Request, Req-Sent (the peer restarted);
+		// the table does not make the event conditional on the Terminate-Ack's identifier
+		mustLeave = true
+		run.Count("rta_in_opened_judged", 1)
+		run.Count("rta_in_opened_judged_"+sp.proto, 1)
+		if !rec.IDLast {
+			run.Count("rta_in_opened_with_id_other_than_last_sent", 1)
+			run.Count("rta_in_opened_with_id_other_than_last_sent_"+sp.proto, 1)
+		}
 	case rec.From == "Opened" && (strings.HasPrefix(k, "RCR") || k == "RCNcur" || k == "RCJcur" || k == "RCAcur") && rec.Err == "" && rec.Panic == "":
 		// renegotiation events: RFC 1661 section 4.1 lists RCR, RCA, RCN and RCJ in Opened as this-layer-down plus a
 		// new Configure-Request; RCA/RCN/RCJ are events only when they carry the latest Configure-Request's identifier
@@ -448,8 +480,17 @@ func (c *caseCtx) judgeEvent(rec *evRec) {
 			run.Count("leave_opened_judged_from_opened", 1)
 		}
 		if opened {
-			c.viol(sp.typ+"."+handlerOf(rec.Inner), "leaves-opened", "still-opened-after-"+rec.Inner+"-in-"+rec.From,
-				fmt.Sprintf("%s still reports Opened after %s delivered in %s", sp.proto, rec.Inner, rec.From))
+			how := ""
+			if rec.PBase != "" {
+				how = fmt.Sprintf(" (identifier %d: %s)", rec.Pkt[1], pktClassName(rec.PClass))
+			}
+			// the class names the event without its identifier class: one defect, one triple
+			ik := rec.Inner
+			if _, pc := peerKind(ik); pc != "" {
+				ik = base
+			}
+			c.viol(sp.typ+"."+handlerOf(rec.Inner), "leaves-opened", "still-opened-after-"+ik+"-in-"+rec.From,
+				fmt.Sprintf("%s still reports Opened after %s delivered in %s%s", sp.proto, rec.Inner, rec.From, how))
 		}
 	}
 	// (c) replies
@@ -459,6 +500,10 @@ func (c *caseCtx) judgeEvent(rec *evRec) {
 	// (d) peer replies whose identifier is not the latest Configure-Request's are silently discarded
 	if rec.IDClass != "" && rec.Pkt != nil {
 		c.judgeDiscard(rec)
+	}
+	// (e) identifier classes of the other peer packets; Terminate-Ack against the RFC 1661 table
+	if rec.PBase != "" && rec.Pkt != nil {
+		c.judgePeerPacket(rec)
 	}
 	// our own identifier-consuming packets (observation)
 	if rec.Pkt == nil || rec.Inner == "UNK" {
